@@ -697,6 +697,8 @@ func runC02EndToEnd(c *core.Ctx) {
 	// the file store's ids: counter values in any order within one second; every earlier message keeps its bytes (c02_ids.go)
 	c02IdsOnStack(c, st)
 	c02CacheOnStack(c, st)
+	// the file system refuses a call of the file store during a delivery, once or for good: what the mailbox lists is whole messages (c02_fault.go)
+	c02FaultOnStack(c, st)
 }
 
 
